@@ -222,15 +222,21 @@ def float_tie_long(pid, tier):
                 continue
             L = 5000 if tier == "quick" else (70000 if name in O1_VIEWS or name in ("Ema", "EmaAlpha", "Laguerre", "Lrsi", "Cyber", "Min", "Max", "Hln") else 12000)
             seed = rng.below(2 ** 40) + 1
-            xs = [F(c, 4) for c in lcg_walk(L, seed)]
-            cases.append((Case(d, [("v", 0, x) for x in xs], {"view": name, "regime": "lcg-walk", "mode": "f64", "model": False}), L, seed))
+            # tenth units (not binary64 numbers: every sum rounds, so a re-associated or running-sum rewrite changes bits) for two cases out of
+            # three, quarter units (all sums exact: pure logic) for the third
+            den = 4 if len(cases) % 3 == 2 else 10
+            xs = [F(c, den) for c in lcg_walk(L, seed)]
+            cases.append((Case(d, [("v", 0, x) for x in xs], {"view": name, "regime": "lcg-walk/%d" % den, "mode": "f64", "model": False}), L, seed, den))
     run_impl([c[0] for c in cases], mode="f64", profile="release")
     nsh = min(NPROC, len(cases))
     shards = [list(range(i, len(cases), nsh)) for i in range(nsh)]
     bodies = []
     for sh_ in shards:
-        items = ["hash_walk_fe %s %d %d" % (d_coq_f(cases[k][0].desc), cases[k][1], cases[k][2]) for k in sh_]
+        items = ["hash_walk_fe_d %d%%positive %s %d %d" % (cases[k][3], d_coq_f(cases[k][0].desc), cases[k][1], cases[k][2]) for k in sh_]
         bodies.append("From Coq Require Import ZArith List Floats.\nFrom SF Require Import Res Scalar View Models Exec FloatOps FloatExec.\nImport ListNotations.\nOpen Scope Z_scope.\n"
+                      "(* FloatExec.walk_ops / hash_walk_fe with the unit 1/den instead of 1/4 *)\n"
+                      "Fixpoint walk_ops_d (den : positive) (n : nat) (s c : Z) : list (op float) :=\n  match n with O => [] | S n' => let '(s', c') := walk_next s c in OU 0 (f_of_q c' den) :: walk_ops_d den n' s' c' end.\n"
+                      "Definition hash_walk_fe_d (den : positive) (d : desc float) (len seed : Z) : Z :=\n  match sched (guard_finite (denote d)) (walk_ops_d den (Z.to_nat len) seed 2000) with None => (-1)%Z | Some m => hash_obs m end.\n"
                       "Eval vm_compute in (map (fun z => (z, 0)) [\n" + ";\n".join(items) + "\n]).\n")
     res = run_coq_shards(pid + "_floatlong", bodies)
     viols, bad = [], 0
@@ -243,12 +249,15 @@ def float_tie_long(pid, tier):
             if p_[0] != obs_hash(c.obs):
                 bad += 1
                 if len(viols) < 2:
-                    fd = float_correspondence(pid + "_locate", [c])[0]
+                    try:
+                        fd = float_correspondence(pid + "_locate", [c])[0]
+                    except CoqError:
+                        fd = 0          # could not be located (the literal form of a stream this long can exceed coqc's limits); the hashes differ all the same
                     short = Case(c.desc, c.ops[:fd] if fd > 0 else c.ops, dict(c.meta))
                     short.obs, short.ctor_ok = c.obs[:fd] if fd > 0 else c.obs, c.ctor_ok
                     viols.append(("float-correspondence", "model@float and the implementation at f64 differ bit-wise on %s at update %d of a %d-step stream: the float-level theorems of %s are no longer tied to this code"
                                   % (d_sexpr(c.desc), fd, cases[k][1], pid),
-                                  {"kind": "float-correspondence", "case": short.to_json(), "first_diff_op": fd, "stream": {"generator": "FloatExec.walk_ops / props.lcg_walk", "length": cases[k][1], "seed": cases[k][2]}, "no_failing_input": True}))
+                                  {"kind": "float-correspondence", "case": short.to_json(), "first_diff_op": fd, "stream": {"generator": "FloatExec.walk_ops / props.lcg_walk", "length": cases[k][1], "seed": cases[k][2], "unit": "1/%d" % cases[k][3]}, "no_failing_input": True}))
     return viols, {"float_long_cases_hashed": len(cases), "float_long_steps": sum(c[1] for c in cases), "float_long_mismatches": bad}
 
 NONFLOAT_LONG = ["Alma", "AlmaCustom", "Ss", "Roofing", "TrendFlex", "ReFlex", "Entropy", "LnReturn", "Eft"]
@@ -784,6 +793,34 @@ def dense_vs_exact(rng, tier, names, prefix, L=None, huge=True, spec=None, grid=
     viols += O.spec_check(spec[0], sp, spec[1])
     return groups, viols
 
+def million_constant(rng, tier, names, prefix):
+    """f64, a CONSTANT stream of 10^6 values (C16 / C13: "however long the stream"; the exact answers on a constant stream are known in closed form):
+    a sum of squares minus a squared sum, a running sum re-based now and then, any accumulator that gains an ulp per update shows only here."""
+    L = 1000000 if tier == "quick" else 4000000
+    want = {"Sma": "c", "Ema": "c", "Alma": "c", "Min": "c", "Max": "c", "WelfordMean": "c", "WRollingMean": "c", "Vst": "c", "Cumulative": "nc",
+            "Welford": 0, "WelfordVar": 0, "Vsct": 0, "Hln": 0, "Cti": 0, "Net": 0, "Roc": 0, "Rsi": 100, "MyRsi": 0, "Cog": 0, "WRolling": 0, "Drawdown": 0, "LnReturn": 0}
+    cases = []
+    for name in names:
+        if name not in want:
+            continue
+        for c in (F(9999, 10), rng.choice([F(33, 10), F(6403, 10), F(53, 10), F(1, 10) * (1 + rng.below(9000))])):
+            n = rng.choice([2, 5, 14])
+            d = (name, E) if name in ("WRolling", "WRollingMean", "Drawdown", "LnReturn") else (name, n, E)
+            cases.append(Case(d, [("Q", 0, c, L - 1), ("u", 0, c)], {"view": name, "regime": "million-constant", "model": False, "mode": "f64", "c": c}))
+    run_impl(cases, mode="f64", profile="release")
+    viols = []
+    for cs in cases:
+        name, c = cs.desc[0], cs.meta["c"]
+        b = cs.obs[-1]
+        w = want[name]
+        exact = float(c) if w == "c" else (float(c) * cs.desc[1] if w == "nc" else float(w))
+        scale_ = abs(exact) if w in ("c", "nc") else {"Rsi": 100.0, "Welford": float(c), "WRolling": float(c), "WelfordVar": float(c) ** 2, "Roc": 100.0}.get(name, 2.0)
+        g = O.f64_of_bits(b.val) if b.kind == "S" else None
+        if g is None or not math.isfinite(g) or abs(g - exact) > 1e-6 * scale_:
+            viols.append(O.viol(prefix + "-million-" + name.lower(), "%s after %d updates with the constant %s reports %s (f64); the exact answer on a constant stream is %s (tolerance 1e-6 x %g)"
+                                % (d_sexpr(cs.desc), L, c, g if g is not None else b.kind, exact, scale_), [cs], desc=d_sexpr(cs.desc)))
+    return cases, viols
+
 # ---------------------------------------------------------------------------------- C02
 C02_VIEWS = ["Sma", "Cumulative", "Min", "Max", "Welford", "WelfordMean", "WelfordVar", "Hln", "Roc", "Entropy", "Vst", "Vsct"]
 def run_C02(rng, tier):
@@ -923,7 +960,24 @@ def run_C05(rng, tier):
     viols += O.pointwise_rel("c05-negation", "negating the input must map Rsi to 100-Rsi / MyRSI to -MyRSI", neg, negrel)
     dg, dv = dense_vs_exact(rng, tier, ["Rsi", "MyRsi"], "c05-long", spec=("C05", "gains/losses over the N most recent changes"))
     viols += dv
-    return finish("C05", "C05", cases, viols, "Rsi / MyRSI stand-alone, N in 1..12, all regimes incl. ties, monotone runs, spikes leaving the window, flat after volatile; closed form from G and L; negation pairs")
+    # a giant value entering and leaving the window (f64 against the exact scalar at every step): while it is inside, G/L is beyond 2^53 and
+    # the reading ROUNDS to exactly 100 / 0 / +-1 although the window is not one-sided; anything keyed on the rounded reading goes wrong after it left
+    sg = []
+    for v in ("Rsi", "MyRsi"):
+        for n in (2, 3, 5, 8):
+            for rep in range(2 * k):
+                xs = [F(rng.below(90) + 10, 10) for _ in range(4 * n + 12)]
+                xs[n + rng.below(n + 2)] = rng.choice([F(10) ** 17, -F(10) ** 30, F(10) ** 30, -F(10) ** 17])
+                if rep % 2:
+                    base = xs[-1]
+                    xs += [base + F(i + 1, 2) for i in range(n + 3)]         # then a rising run: the reading stays where a stale 100 would pin it
+                meta = {"view": v, "regime": "giant-spike", "model": False}
+                sg.append(("long", Case.simple((v, n, E), xs, dict(meta, mode="f64")), Case.simple((v, n, E), xs, dict(meta, mode="ex")), None))
+    run_impl([g[1] for g in sg], mode="f64", profile="release")
+    run_impl([g[2] for g in sg], mode="ex", profile="release")
+    viols += O.c16(sg, prefix="c05-spike")
+    return finish("C05", "C05", cases, viols, "Rsi / MyRSI stand-alone, N in 1..12, all regimes incl. ties, monotone runs, spikes leaving the window, flat after volatile; closed form from G and L; negation pairs; f64 against the exact scalar with a value of 1e17 / 1e30 entering and leaving the window",
+                  {"f64_vs_exact_runs": len(sg)})
 
 # ---------------------------------------------------------------------------------- C06
 def run_C06(rng, tier):
@@ -992,6 +1046,22 @@ def run_C06(rng, tier):
                 break
     dg, dv = dense_vs_exact(rng, tier, ["Net", "Cti", "Cog"], "c06-long", spec=("C06", "the correlation definition on the window"))
     viols += dv
+    # a giant value enters and LEAVES the window: from then on the window holds ordinary values only and the f64 answer must be the exact one again
+    # (a view that keeps running sums instead of recomputing has absorbed the small values while the giant was inside)
+    sg = []
+    for v in ("Cti", "Net", "Cog"):
+        for n in (3, 4, 7):
+            for rep in range(2 * k):
+                pre = [F(rng.below(90) + 10, 4) for _ in range(n + 2)] + [rng.choice([F(10) ** 9, F(10) ** 17, -F(10) ** 12])] + [F(rng.below(90) + 10, 4) for _ in range(n)]
+                post = [F(i, 4) + F(rng.below(3), 8) for i in range(1, n + 6)] if rep % 2 else [F(rng.below(90) + 10, 4) for _ in range(n + 5)]
+                if v == "Cog":
+                    pre = [abs(x) for x in pre]
+                ops = [("q", 0, x) for x in pre] + [("v", 0, x) for x in post]
+                meta = {"view": v, "regime": "giant-spike-left", "model": False}
+                sg.append(("long", Case((v, n, E), ops, dict(meta, mode="f64")), Case((v, n, E), ops, dict(meta, mode="ex")), None))
+    run_impl([g[1] for g in sg], mode="f64", profile="release")
+    run_impl([g[2] for g in sg], mode="ex", profile="release")
+    viols += O.c16(sg, prefix="c06-spike")
     return finish("C06", "C06", cases, viols, "CTI/NET/CoG, N in 3..10: batch Pearson / Kendall / CoG formula on full windows; strictly monotone and affine windows; negation pairs; strictly increasing map for NET")
 
 def approx_s(g):
@@ -1141,7 +1211,10 @@ def run_C13(rng, tier):
     cases.append(Case.simple(("Drawdown", E), [10, 8, 12, 6, 12, 12, 3, 20, 19, 5, 40], {"regime": "new-peaks-after-drawdowns", "view": "Drawdown"}))
     run_impl(cases)
     viols = O.spec_check("C13", cases, "the batch definition over the whole history")
-    return finish("C13", "C13", cases, viols, "WelfordRolling mean()/last(), Drawdown, LnReturn on positive streams (new peaks after drawdowns, repeated peaks, monotone runs): batch definitions over the whole history, exact rationals")
+    mc, mv = million_constant(rng, tier, ["WRolling", "WRollingMean", "Drawdown", "LnReturn"], "c13")       # "streams of any length (millions of values)"
+    viols += mv
+    return finish("C13", "C13", cases, viols, "WelfordRolling mean()/last(), Drawdown, LnReturn on positive streams (new peaks after drawdowns, repeated peaks, monotone runs): batch definitions over the whole history, exact rationals; f64 on constant streams of 10^6 values against the closed-form answer",
+                  {"long_f64_runs": len(mc)})
 
 # ---------------------------------------------------------------------------------- C11
 C11_VIEWS = ["Ss", "Roofing", "Laguerre", "Lrsi", "Cyber", "TrendFlex", "ReFlex", "Eft", "Pfe"]
@@ -1607,6 +1680,8 @@ def run_C16(rng, tier):
     dg, dv = dense_vs_exact(rng, tier, C16_VIEWS + ["WRolling", "WRollingMean"], "c16", grid=1)
     viols += dv
     groups += dg
+    mc, mv = million_constant(rng, tier, C16_VIEWS + ["WRolling", "WRollingMean", "WelfordVar"], "c16")
+    viols += mv
     # f32, shorter streams
     f32 = []
     for name in ("Sma", "Cumulative", "Ema", "WelfordMean", "Rsi", "Min", "Max"):
